@@ -1,5 +1,6 @@
 import OV.Model.C18Builder
 import OV.Model.C18NN
+import OV.Model.C18Partition
 import OV.Drivers.Loop
 /-! Line-protocol driver for C18.
 
@@ -34,36 +35,58 @@ def parseOuts (s : String) : Option Outs :=
   else if s.startsWith "e" then some (.named (names (s.drop 1).toString))
   else none
 
+/-- `k=v` (first `=` splits). -/
+def splitKV (s : String) : String × String :=
+  match s.splitOn "=" with
+  | [] => ("", "")
+  | k :: rest => (k, "=".intercalate rest)
+
+def parseAttrs (s : String) : List (String × AVal) := (splitL (unAt s) "&").map splitKV
+
+/-- body-node attributes: `k=v` a value, `k=>p` a reference to the attribute parameter `p`. -/
+def parseFAttrs (s : String) : List (String × FAttr) :=
+  (splitL (unAt s) "&").map (fun t =>
+    let kv := splitKV t
+    if kv.2.startsWith ">" then (kv.1, FAttr.ref (kv.2.drop 1).toString) else (kv.1, FAttr.val kv.2))
+
+/-- declared attribute parameters: `p=default` or `p` (required). -/
+def parseAttrParams (s : String) : List (String × Option AVal) :=
+  (splitL (unAt s) "&").map (fun t =>
+    match t.splitOn "=" with
+    | [k] => (k, none)
+    | k :: rest => (k, some ("=".intercalate rest))
+    | [] => ("", none))
+
 def parseFNode (s : String) : Option FNode :=
   match s.splitOn "^" with
-  | [n, d, o, i, os] =>
-    some ⟨unAt n, unAt d, o, (splitL i ";").map optAt, names os⟩
+  | [n, d, o, i, os, atr] =>
+    some ⟨unAt n, unAt d, o, (splitL i ";").map optAt, names os, parseFAttrs atr⟩
   | _ => none
 
 def parseFn (fs : List String) : Option Fn :=
   match fs with
-  | [n, d, ov, fo, os, ns] => do
+  | [n, d, ov, fo, os, ns, ap] => do
     let nodes ← (splitL ns "~").mapM parseFNode
-    pure ⟨n, unAt d, unAt ov, names fo, nodes, names os⟩
+    pure ⟨n, unAt d, unAt ov, names fo, nodes, names os, parseAttrParams ap⟩
   | _ => none
 
 def parseItem (s : String) : Option Item :=
   match s.splitOn "|" with
   | ["I", n] => some (.input n)
-  | ["O", t, a, o, nn, g] => do
+  | ["O", t, a, o, nn, g, atr] => do
     let a ← parseArgs a; let o ← parseOuts o; let g ← nats g
-    pure (.op (unAt t) a o (optAt nn) g)
+    pure (.op (unAt t) a o (optAt nn) g (parseAttrs atr))
   | ["P", n] => some (.push (unAt n))
   | ["Q"] => some .pop
-  | ["C", f, a, o] => do
+  | ["C", f, a, o, atr] => do
     let f ← f.toNat?; let a ← parseArgs a
     let o ← (if o = "@" then some none else (parseOuts o).map some)
-    pure (.call f a o)
-  | ["L", f, a, o, p] => do
+    pure (.call f a o (parseAttrs atr))
+  | ["L", f, a, o, p, atr] => do
     let f ← f.toNat?; let a ← parseArgs a
     let o ← (if o = "@" then some none
              else if o.startsWith "e" then some (some (names (o.drop 1).toString)) else none)
-    pure (.inline f a o (unAt p))
+    pure (.inline f a o (unAt p) (parseAttrs atr))
   | ["B", g, i] => some (.beginSub g (names i))
   | ["E", r, d] => do
     let r ← nats r
@@ -79,7 +102,8 @@ def showIn (st : St) : Option Nat → String
 
 def showNode (st : St) (n : Node) : String :=
   "|".intercalate [n.name, n.domain, n.op ++ (if n.overload = "" then "" else ":" ++ n.overload), ",".intercalate (n.ins.map (showIn st)),
-    ",".intercalate (n.outs.map (nameOf st)), ",".intercalate (n.graphs.map toString)]
+    ",".intercalate (n.outs.map (nameOf st)), ",".intercalate (n.graphs.map toString),
+    "&".intercalate (n.attrs.map (fun e => e.1 ++ "=" ++ e.2))]
 
 def showFrame (st : St) (f : Frame) : String :=
   f.gname ++ " in=" ++ ",".intercalate (f.inputs.map (nameOf st)) ++ " out="
@@ -154,11 +178,14 @@ def nnStep (s : NNSt) (tok : String) : NNSt :=
 def showKP (l : List (String × Nat)) : String :=
   ",".intercalate (l.map (fun x => x.1 ++ "#" ++ toString x.2))
 
-def handleNN (toks : List String) : String :=
+def handleNN (toks0 : List String) : String :=
+  -- `CTL|<path>`: the module at that path (child keys from the root, `@` = the root) runs its children in a sub-builder
+  let ctl := (toks0.filter (·.startsWith "CTL|")).map (fun t => path (t.drop 4).toString)
+  let toks := toks0.filter (fun t => !(t.startsWith "CTL|"))
   let s := toks.foldl nnStep ⟨[], 0, false⟩
   match s.bad, s.stack with
   | false, [root] =>
-    let r := realize root
+    let r := realizeB SubPolicy.code ctl root
     "R " ++ showKP r ++ " | INIT " ++ ",".intercalate (initKeys r)
       ++ " | SD " ++ showKP (stateDict "" root)
       ++ " | NP " ++ showKP (namedParams "" root)
@@ -166,8 +193,31 @@ def handleNN (toks : List String) : String :=
       ++ " | CALLABLE " ++ (if callable root then "1" else "0")
   | _, _ => "bad-op"
 
+/-! ### `part <sig> <args> <kwargs>`: sig = `name:isInput:variadic:required:hasDefault;…`, args `a;b`,
+    kwargs `k=v&k=v`; `@` = empty. -/
+
+def parseSig (s : String) : Option (List SigParam) :=
+  (splitL (unAt s) ";").mapM (fun t =>
+    match t.splitOn ":" with
+    | [n, a, b, c, d] => some ⟨n, a = "1", b = "1", c = "1", d = "1"⟩
+    | _ => none)
+
+def handlePart (toks : List String) : String :=
+  match toks with
+  | [sg, a, kw] =>
+    match parseSig sg with
+    | none => "bad-op"
+    | some sig =>
+      match partition sig (splitL (unAt a) ";") (parseAttrs kw) with
+      | .ok (ins, attrs) => "OK " ++ ";".intercalate ins ++ " | " ++ "&".intercalate (attrs.map (fun e => e.1 ++ "=" ++ e.2))
+      | .error .extraKwargs => "ERR extra-kwargs"
+      | .error (.missing n) => "ERR missing " ++ n
+      | .error .tooMany => "ERR too-many"
+  | _ => "bad-op"
+
 def handle (args : List String) : String :=
   match args with
+  | "part" :: rest => handlePart rest
   | "build" :: rest => handleBuild rest
   | "nn" :: rest => handleNN rest
   | _ => "bad-op"
